@@ -256,6 +256,9 @@ fn bound_decls() -> Vec<(&'static str, &'static str, &'static str, Vec<&'static 
         ("<D: A + ?Sized>", "deps: &D", "", vec!["A"]),
         ("", "deps: &(impl A + ?Sized + B)", "", vec!["A", "B"]),
         ("<D: A>", "deps: &D", "where D: ?Sized + B", vec!["A", "B"]),
+        // bounds that differ only in their generic arguments or in their path are different bounds
+        ("<D: Repo<u8>>", "deps: &D", "where D: Repo<u16>", vec!["Repo < u8 >", "Repo < u16 >"]),
+        ("", "deps: &(impl users::Store + orders::Store)", "", vec!["users :: Store", "orders :: Store"]),
     ]
 }
 
@@ -264,7 +267,7 @@ fn bound_strings(b: &syn::punctuated::Punctuated<syn::TypeParamBound, syn::token
 }
 
 fn c04_header(_ctx: &Ctx, r: &mut Report) {
-    r.domain = "17 ways of declaring 0..3 dependency bounds (inline, where, split, several predicates, impl A + B, by value, with `?Sized`) x {fn, mod of two fns with different declarations} x option sets {none, mockall, unimock + mock_api, ?Send, ?Send + mockall, mockall = false, unimock = false + mock_api, unimock = false + mock_api + mockall, unimock (no mock_api) + mockall = false}".into();
+    r.domain = "19 ways of declaring 0..3 dependency bounds (inline, where, split, several predicates, impl A + B, by value, with `?Sized`) x {fn, mod of two fns with different declarations} x option sets {none, mockall, unimock + mock_api, ?Send, ?Send + mockall, mockall = false, unimock = false + mock_api, unimock = false + mock_api + mockall, unimock (no mock_api) + mockall = false}".into();
     r.bound = "exhaustive over the listed declarations and all ordered pairs for modules".into();
     let decls = bound_decls();
     // "mock support" is about what is switched on, not about what is written: `= false` counts like an absent option
@@ -310,7 +313,7 @@ fn c04_header(_ctx: &Ctx, r: &mut Report) {
             }
             let im = impls[0];
             // impl generics: EntraitT: ::core::marker::Sync [+ ::core::marker::Send] + 'static first
-            let first = im.generics.params.first();
+            let first = im.generics.params.iter().find(|p| !matches!(p, syn::GenericParam::Lifetime(_)));
             match first {
                 Some(syn::GenericParam::Type(tp)) if tp.ident == "EntraitT" => {
                     let got = bound_strings(&tp.bounds);
@@ -351,7 +354,9 @@ fn c04_header(_ctx: &Ctx, r: &mut Report) {
             } else {
                 match self_bounds {
                     Some(got) if n_self_preds == 1 => {
-                        if got != bounds {
+                        // "no declared bound dropped, none added": a set comparison (order and repetition are immaterial)
+                        let as_set = |v: &Vec<String>| -> std::collections::BTreeSet<String> { v.iter().cloned().collect() };
+                        if as_set(&got) != as_set(&bounds) {
                             r.fail("bounds-mismatch", &input, format!("declared bounds [{}] but the impl requires Self: [{}]", bounds.join(", "), got.join(", ")));
                         }
                     }
